@@ -446,3 +446,132 @@ pub mod c09 {
         }
     }
 }
+
+// C20 positive controls: position bookkeeping that is wrong in every way rules/c20.py looks for
+pub mod c20 {
+    #[derive(Clone, Copy)]
+    pub struct Span { pub start: usize, pub end: usize, pub line: u32, pub column: u32 }
+    impl Span {
+        pub fn new(start: usize, end: usize, line: u32, column: u32) -> Span { Span { start, end, line, column } }
+    }
+    pub struct Token { pub kind: u8, pub span: Span }
+    impl Token {
+        pub fn eof(pos: usize, line: u32, column: u32) -> Token { Token { kind: 0, span: Span::new(pos, pos, line, column) } }
+    }
+    pub struct Lexer<'a> {
+        pub chars: std::iter::Peekable<std::str::CharIndices<'a>>,
+        pub current_pos: usize,
+        pub line: u32,
+        pub column: u32,
+        pub start_pos: usize,
+        pub start_line: u32,
+        pub start_column: u32,
+    }
+    impl<'a> Lexer<'a> {
+        fn advance(&mut self) -> Option<char> {
+            let r = self.chars.next();
+            if let Some((pos, ch)) = r {
+                self.current_pos = pos + ch.len_utf8();
+                // L2: CR counts as a line end as well, LS/PS do not
+                if ch == '\n' || ch == '\r' {
+                    self.line += 1;
+                    self.column = 0; // L2: zero-based after a line break
+                } else {
+                    self.column += 1;
+                }
+            }
+            r.map(|(_, c)| c)
+        }
+        // L1: a second consumer that does not count
+        fn skip_spaces(&mut self) {
+            while let Some((_, c)) = self.chars.peek() {
+                if *c == ' ' {
+                    self.chars.next();
+                } else {
+                    break;
+                }
+            }
+        }
+        pub fn next_token(&mut self) -> Token {
+            self.skip_spaces();
+            let first = self.advance();
+            // L3: the start is recorded after the first character was consumed
+            self.start_pos = self.current_pos;
+            self.start_line = self.line;
+            self.start_column = self.column;
+            if first.is_none() {
+                return Token::eof(self.current_pos, self.line, self.column);
+            }
+            while let Some(c) = self.advance() {
+                if c == ' ' {
+                    break;
+                }
+            }
+            // L3: swapped roles, and the position after the token
+            let sp = Span::new(self.start_pos, self.current_pos, self.column, self.start_line);
+            Token { kind: 1, span: sp }
+        }
+    }
+    pub struct SourceLocation { pub line: u32, pub column: u32 }
+    pub fn syntax_error(_m: &str, line: u32, column: u32) -> SourceLocation { SourceLocation { line, column } }
+    // P1: line and column from different spans, and swapped
+    pub fn report(a: &Token, b: &Token) -> (SourceLocation, SourceLocation) {
+        (syntax_error("x", a.span.line, b.span.column), syntax_error("y", a.span.column, a.span.line))
+    }
+    pub struct SourceMapEntry { pub bytecode_offset: usize, pub span: Span }
+    pub struct Builder { pub code: Vec<u8>, pub source_map: Vec<SourceMapEntry>, pub current_span: Option<Span> }
+    impl Builder {
+        // M1: offset read after the push
+        pub fn emit(&mut self, op: u8) -> usize {
+            self.code.push(op);
+            let index = self.code.len();
+            if let Some(span) = self.current_span {
+                // M1c: entries only when the source position moves forward
+                let add = match self.source_map.last() {
+                    Some(e) => e.span.start < span.start,
+                    None => true,
+                };
+                if add {
+                    self.source_map.push(SourceMapEntry { bytecode_offset: index, span });
+                }
+            }
+            index
+        }
+        // M1: an instruction appended without an entry, and one removed from the middle
+        pub fn emit_raw(&mut self, op: u8) {
+            self.code.push(op);
+        }
+        pub fn peephole(&mut self, at: usize) {
+            self.code.remove(at);
+        }
+    }
+    pub struct Chunk { pub source_map: Vec<SourceMapEntry>, pub name: Option<String>, pub file: Option<String> }
+    impl Chunk {
+        // M2: Err(i) -> i
+        pub fn get_source_location(&self, offset: usize) -> Option<Span> {
+            match self.source_map.binary_search_by_key(&offset, |e| e.bytecode_offset) {
+                Ok(i) => self.source_map.get(i).map(|e| e.span),
+                Err(i) => self.source_map.get(i).map(|e| e.span),
+            }
+        }
+    }
+    pub struct StackFrame { pub function_name: Option<String>, pub file: Option<String>, pub line: u32, pub column: u32 }
+    pub struct Frame { pub ip: usize, pub chunk: Chunk }
+    pub struct Vm { pub ip: usize, pub chunk: Chunk, pub trampoline_stack: Vec<Frame> }
+    impl Vm {
+        // T1: outer frames bottom-up, raw ip, swapped line/column in the outer frames
+        pub fn build_stack_trace(&self) -> Vec<StackFrame> {
+            let mut frames = Vec::new();
+            let ip = if self.ip > 0 { self.ip - 1 } else { 0 };
+            if let Some(span) = self.chunk.get_source_location(ip) {
+                frames.push(StackFrame { function_name: self.chunk.name.clone(), file: self.chunk.file.clone(), line: span.line, column: span.column });
+            }
+            for fr in self.trampoline_stack.iter() {
+                if let Some(span) = fr.chunk.get_source_location(fr.ip) {
+                    frames.push(StackFrame { function_name: fr.chunk.name.clone(), file: fr.chunk.file.clone(), line: span.column, column: span.line });
+                }
+            }
+            frames
+        }
+    }
+}
